@@ -19,8 +19,13 @@ type vTreeNode struct {
 	depth int
 }
 
-func vNames() []string {
-	if verif.Tier() > 0 {
+// vWideTree: thorough tier only -- a third top-level name ("ab") with at most one
+// pattern, or the two names with up to two patterns (the full product, 24 389
+// trees x 73 pattern lists x 9 operations, is far beyond the wall limit).
+var vWideTree bool
+
+func vNames(depth int) []string {
+	if depth == 1 && vWideTree {
 		return []string{"a", "b", "ab"}
 	}
 	return []string{"a", "b"}
@@ -32,7 +37,8 @@ var vPatterns = []string{"a", "b", "ab", "a.*", ".*b", "[ab]", "a.b", "b.a"}
 func vGenTree(fs FS, root string) []vTreeNode {
 	var nodes []vTreeNode
 	_ = fs.MkDir(root)
-	for _, n1 := range vNames() {
+	vWideTree = verif.Tier() > 0 && verif.Bool("wideTree")
+	for _, n1 := range vNames(1) {
 		switch verif.Choice("k1", 3) { // absent, file, dir
 		case 1:
 			_ = fs.WriteFile(root+"/"+n1, []byte("1"), 0o644)
@@ -40,7 +46,7 @@ func vGenTree(fs FS, root string) []vTreeNode {
 		case 2:
 			_ = fs.MkDir(root + "/" + n1)
 			nodes = append(nodes, vTreeNode{rel: []string{n1}, dir: true, depth: 1})
-			for _, n2 := range vNames() {
+			for _, n2 := range vNames(2) {
 				switch verif.Choice("k2", 3) {
 				case 1:
 					_ = fs.WriteFile(root+"/"+n1+"/"+n2, []byte("2"), 0o644)
@@ -57,7 +63,7 @@ func vGenTree(fs FS, root string) []vTreeNode {
 
 func vPickPatterns() []string {
 	maxP := 1
-	if verif.Tier() > 0 {
+	if verif.Tier() > 0 && !vWideTree {
 		maxP = 2
 	}
 	n := verif.Len("npat", 0, maxP)
